@@ -507,6 +507,29 @@ let ch_c13 hex lim dets head kind end2s =
   let judge sepc name = if head = name then (match sv_model sepc raw l with Some false -> propfail "C13" (Printf.sprintf "%s reported but the complete non-comment lines do not all have the same number (>= 2) of fields: %s" name desc) | _ -> ()) in
   judge comma "text/csv"; judge tab "text/tab-separated-values"
 
+(* ---- results (C02) and equality helpers (C15) ---- *)
+let regs = List.map (fun nd -> (nd.n_mime, nd.n_ext)) nodes
+let parse_params (t : ostr) = if t = "-" then [] else
+  List.map (fun kv -> match String.split_on_char '=' kv with [k; v] -> (bytes_of_hex (if k = "" then "-" else k), bytes_of_hex (if v = "" then "-" else v)) | _ -> ([], [])) (String.split_on_char ';' t)
+(* c02 <elem,elem,...> <err|noerr> <input> ; elem = string/ext/ok|err/type/params *)
+let ch_c02 res tag inp =
+  let elems = List.filter_map (fun e -> match String.split_on_char '/' e with
+    | [s; x; ok; t; ps] -> Some { r_string = bytes_of_hex s; r_ext = bytes_of_hex x; r_parse_ok = (ok = "ok"); r_type = bytes_of_hex t; r_params = parse_params ps }
+    | _ -> None) (String.split_on_char ',' res) in
+  if List.length elems <> List.length (String.split_on_char ',' res) then propfail "C02" (Printf.sprintf "Parent() chain does not terminate (cycle): input=%s" inp)
+  else begin
+    let why = c02_judge regs elems (tag = "err") in
+    if why <> [] then propfail "C02" (Printf.sprintf "%s: result=%S chain=[%s] input=%s" (string_of_bytes why)
+        (match elems with h :: _ -> string_of_bytes h.r_string | [] -> "")
+        (String.concat " <- " (List.map (fun e -> string_of_bytes e.r_string ^ "|" ^ string_of_bytes e.r_ext) elems)) inp)
+  end
+(* is <node id> <s> <norm(s) per mime.ParseMediaType> <obs> <kind> *)
+let ch_is ids sh normh obs kind =
+  let nd = node_arr.(int_of_string ids) in
+  let m = is_model nd.n_mime nd.n_aliases (bytes_of_hex normh) in
+  if string_of_bool m <> obs then
+    propfail "C15" (Printf.sprintf "(%s).Is(%S): expected %b (normalised argument %S vs type and aliases) got %s [%s]" (string_of_bytes nd.n_mime) (string_of_bytes (bytes_of_hex sh)) m (string_of_bytes (bytes_of_hex normh)) obs kind)
+
 (* c10 <hex hdr> <limit> <mime|ext of the result> <kind> *)
 let json_family_heads = ["application/json|.json"; "application/geo+json|.geojson"; "application/json|.har"; "model/gltf+json|.gltf"]
 let ch_c10 hex lim head kind =
@@ -532,6 +555,8 @@ let () =
        | ["c17"; hex; classes] -> ch_c17 hex classes
        | ["c10"; hex; lim; head; kind] -> ch_c10 hex lim head kind
        | ["c18"; hex; vec; chain; kind] -> ch_c18 hex vec chain kind
+       | ["c02"; res; tag; inp] -> ch_c02 res tag inp
+       | ["is"; id; s; nm; ob; k] -> ch_is id s nm ob k
        | ["c13"; hex; lim; dets; head; kind; e2] -> ch_c13 hex lim dets head kind e2
        | ["ext"; h; k; d] -> ch_ext h k d
        | ["extp"; h; x; l; v; ch; bf] -> ch_extp h x l v ch bf
